@@ -166,6 +166,10 @@ pub fn execute(spec: &RunSpec, monitor: &mut dyn Monitor, keep_log: bool) -> Run
             }
         };
         // apply
+        if !from_replay && spec.replay.is_some() && decisions.len() < spec.replay.as_ref().unwrap().len() + 40 && std::env::var("QSIM_DEBUG2").is_ok() {
+            let v = world.view();
+            eprintln!("post-list decision {:?} view={:?} client_wait={} polled={}", d, v, client.waiting(), client.polled_since_env);
+        }
         let out = apply(&mut world, &mut client, &d);
         decisions.push(d.clone());
         {
@@ -265,7 +269,10 @@ pub fn apply(world: &mut World, client: &mut Client, d: &Decision) -> StepOutcom
         Decision::W { i, take, q } => world.step_worker(*i, *take, *q),
         Decision::E { take } => {
             let o = world.step_env(take);
-            client.polled_since_env = false;
+            // the client needs to poll again only if the environment consumed something
+            if o.did_work {
+                client.polled_since_env = false;
+            }
             o
         }
         Decision::C => {
